@@ -131,6 +131,18 @@ func New(s *scn.Scenario) *Core {
 	if err != nil || len(c.opc) != 16 {
 		c.cfgErr = "scenario OP/OPc is not 16 octets of hex"
 	}
+	if bad, _ := s.Rig["badcred"].(bool); bad {
+		// the configuration is deliberately malformed (negative run): the network side has no valid
+		// record for this subscriber and challenges with placeholder credentials; the run only asks
+		// whether the emulator answers at all
+		if len(c.k) != 16 {
+			c.k = make([]byte, 16)
+		}
+		if len(c.opc) != 16 {
+			c.opc = make([]byte, 16)
+		}
+		c.cfgErr = ""
+	}
 	return c
 }
 
@@ -484,10 +496,10 @@ func (c *Core) registrationRequest(ranID int64, plain []byte) {
 		ue.SUPI = s.MCC + s.MNC + s.MSIN
 		c.cur.Info["supi"] = ue.SUPI
 		c.cur.Info["ran_ue_ngap_id"] = ranID
-		if prev := c.bySUPI[ue.SUPI]; prev != nil {
+		if prev := c.bySUPI[ue.SUPI]; prev != nil && prev.State != StGone {
 			c.viol("ident.supi-reused", "UE #%d registers with SUPI %s already used by UE #%d", ord, ue.SUPI, prev.Ordinal)
 		} else {
-			c.bySUPI[ue.SUPI] = ue
+			c.bySUPI[ue.SUPI] = ue // first registration, or a new one after the earlier context was released
 		}
 		if ue.SUPI != want {
 			if idx, in := c.subscriberIndex(ue.SUPI); !in {
